@@ -43,9 +43,15 @@ man = {
         'add_only': True,
     },
     'engines': [
-        {'name': 'crosshair-symrt', 'path': 'engine/', 'serves_properties': [c['property_id'] for c in checks],
-         'kind_free_text': 'CrossHair 0.0.110 symbolic execution of the unmodified pamqp functions with '
-                           'z3 5.1, plus the modelling layer symrt/ and direct SMT kernels (engine/ksmt.py)'},
+        {'name': 'crosshair-symrt', 'path': 'engine/', 'serves_properties': [c['property_id'] for c in checks
+                                                                          if c['property_id'] != 'C17'],
+         'kind_free_text': 'CrossHair 0.0.110 symbolic execution of the unmodified pamqp functions (imported '
+                           'through symrt/loader.py from the current source) with z3 5.1 and the modelling '
+                           'layer symrt/; counterexamples replayed by engine/replayer.py on the real code'},
+        {'name': 'ksmt', 'path': 'engine/ksmt.py', 'serves_properties': ['C13', 'C14', 'C15', 'C17'],
+         'kind_free_text': 'SMT-LIB2 queries generated from the AST / introspection of the current source '
+                           '(validators K1, catalogue and reply codes K2, timestamp lemma K3) discharged by '
+                           'z3 (5.1; 4.8.12 and cvc5 as cross-check in the thorough tier)'},
     ],
     'checks': checks,
     'not_applicable': na,
